@@ -1,0 +1,18 @@
+//go:build verif
+
+package endorse
+
+import "google.golang.org/protobuf/proto"
+
+// VerifDeterministicDoc makes SignDoc serialize the golden measurement with map entries in key
+// order. Simulation-only seam: proto.Marshal emits map fields in Go's random map order, so the
+// signed bytes (and with them the signature) of one and the same run would differ between two
+// executions and a failure that depends on those bytes could not be replayed.
+var VerifDeterministicDoc bool
+
+func marshalDoc(doc proto.Message) ([]byte, error) {
+	if VerifDeterministicDoc {
+		return proto.MarshalOptions{Deterministic: true}.Marshal(doc)
+	}
+	return proto.Marshal(doc)
+}
